@@ -10,6 +10,7 @@
 import Proofs.Network
 import Proofs.NetworkNFT
 import Proofs.NetworkMulti
+import Proofs.Accept
 import Proofs.Ledger
 import Proofs.Hex
 namespace C01
@@ -258,5 +259,25 @@ example : MWorldInv nvEnv nvMW0 := by
         · exact absurd rfl hne
   · exact ⟨by simp [Accts.Nodup], fun _ _ _ _ => Or.inl rfl, fun _ _ => (by show ([] : Bytes).length < two63; decide),
       fun _ _ _ _ _ h => absurd rfl h⟩
+
+/-- FULL ("a refund is never rejected", ESDTTransfer): the refund of a failed delivery — callback call type, return-after-error
+    flag, the transfer arguments only, executed on the origin shard where the sender lives — SUCCEEDS on every state in
+    which the sender's slot for the token is empty or a well-formed fungible entry (what C15 guarantees of every slot the
+    sender could have been debited from), and credits exactly the refunded amount: total correctness, not "if it
+    succeeds".  No gate, no payability, no gas is consulted; the premises besides well-formedness are that the encoding of
+    the new entry fits a Go slice and that no dependency fault is injected.  (In `conservation_history` a refund that did
+    fail would simply stay in flight: the supply invariant needs no such theorem; THIS theorem is why refunds do not stay
+    in flight.) -/
+theorem refund_never_rejected (env : Env) (c : Call) (ctx : Ctx) (tok amt : Bytes)
+    (hct : c.callType = 2) (hrae : c.rae = true) (hargs : c.args = [tok, amt]) (hamt : beNat amt ≠ 0)
+    (hval : c.callValue = 0)
+    (hsnd : present env.nshards env.self c.caller = false) (hdst : present env.nshards env.self c.rcv = true)
+    (hmeta : shardOf env.nshards c.rcv ≠ metaShard) (hnf : ctx.failAt = none)
+    (t : Token) (v : Int) (ht : tokenOf (ctx.accts.read c.rcv (esdtKeyPrefix ++ tok)) = some t) (hty : t.type = 0)
+    (hv : t.value = some v) (hv0 : 0 ≤ v)
+    (hlen : (encToken { t with value := some (v + (beNat amt : Int)) }).length < two63) :
+    ∃ out ctx', esdtTransfer env c ctx = .ok (out, ctx') ∧ out.rc = 0 ∧
+      ctx'.accts = ctx.accts.write c.rcv (esdtKeyPrefix ++ tok) (storedForm { t with value := some (v + (beNat amt : Int)) }) :=
+  esdtTransfer_refund_accepted env c ctx tok amt hct hrae hargs hamt hval hsnd hdst hmeta hnf t v ht hty hv hv0 hlen
 
 end C01
